@@ -652,9 +652,10 @@ def _apply_caps(current_node, current_edges, caps):
     return state_node.get_tensor()
 
 
-def _apply_pt_mpos(current_node, current_edges, pt_mpos):
+def _apply_pt_mpos(current_node, current_edges, pt_mpos, reverse=False):
     """
-    Apply MPO for forward propagation step
+    Apply MPO for forward propagation step (the MPOs are applied in list
+    order, or in reversed list order if `reverse` is True)
 
         before mpo application:
             [1]
@@ -687,7 +688,11 @@ def _apply_pt_mpos(current_node, current_edges, pt_mpos):
             |          |
                        |
     """
-    for i, pt_mpo in enumerate(pt_mpos):
+    order = range(len(pt_mpos))
+    if reverse:
+        order = reversed(order)
+    for i in order:
+        pt_mpo = pt_mpos[i]
         if pt_mpo is None:
             continue
         pt_mpo_node = tn.Node(pt_mpo)
